@@ -58,13 +58,14 @@ def presetup():
 def setup():
     presetup()
     V.extract_model("C13", EXTRACT, DRIVER, [])
+    V.build_prog("c13unit", UNIT_SRC, variant="asan")      # the name-reference family runs under the sanitizers in the quick tier too
 
 
 # ------------------------------------------------------------------ scenario generator
 CV_KINDS = ["distanceZ", "distance", "dihedral", "distanceVec", "gyration", "angle", "combo", "fitdist", "rmsd", "lincomb"]
 
 
-def gen_colvar(r, name, ext_ok=True):
+def gen_colvar(r, name, ext_ok=True, partners=()):
     kind = r.choice(CV_KINDS)
     a = lambda: r.randint(1, NATOMS)
     L = ["colvar {", "  name " + name]
@@ -94,6 +95,10 @@ def gen_colvar(r, name, ext_ok=True):
         L.append("  timeStepFactor 2")
     if scalar and r.random() < 0.15:
         L.append("  subtractAppliedForce on")
+    if scalar and partners and r.random() < 0.2:
+        # a reference to ANOTHER variable by name, resolved at every step (colvar::calc_acf); the partner keeps no back-reference
+        opts["corr"] = r.choice(list(partners))
+        L += ["  corrFunc on", "  corrFuncWithColvar " + opts["corr"], "  corrFuncType " + r.choice(["coordinate", "velocity"]), "  corrFuncLength 4"]
     def comp(k):
         if k == "distanceZ":
             return ["  distanceZ {", "    main { atomNumbers %d }" % a(), "    ref { dummyAtom (0,0,0) }", "    axis (0,0,1)", "  }"]
@@ -210,7 +215,7 @@ def gen_sequence(r, k, length, with_set=True):
     for i in range(length):
         x = r.random()
         if not cvs or x < 0.22:
-            c = gen_colvar(r, "v%d" % ncv, ext_ok=with_set); ncv += 1
+            c = gen_colvar(r, "v%d" % ncv, ext_ok=with_set, partners=[x["name"] for x in cvs if x["scalar"]]); ncv += 1
             cvs.append(c)
             ev.append({"op": "addcv", "cv": c})
         elif x < 0.45:
@@ -254,6 +259,101 @@ def gen_sequence(r, k, length, with_set=True):
     # identity stream: no extended-Lagrangian variables and engine total forces that do not contain the Colvars
     # forces, so that a deleted bias cannot legitimately have changed the state of a survivor while it existed
     return {"id": k, "samestep": samestep, "events": ev, "includecv": 1 if with_set else 0}
+
+
+# ------------------------------------------------------------------ references by name (corrFuncWithColvar)
+def simple_cv(r, name, corr=None, ctype="coordinate"):
+    kind = r.choice(["distanceZ", "distance", "angle", "dihedral"])
+    ids = r.sample(range(1, NATOMS + 1), 4)
+    L = ["colvar {", "  name " + name]
+    opts = {}
+    if r.random() < 0.5:
+        L += ["  lowerBoundary -4.0", "  upperBoundary 4.0", "  width 0.5"]
+        opts["grid"] = True
+    if corr is not None:
+        opts["corr"] = corr
+        L += ["  corrFunc on", "  corrFuncWithColvar " + corr, "  corrFuncType " + ctype, "  corrFuncLength 3"]
+    if kind == "distanceZ":
+        L += ["  distanceZ {", "    main { atomNumbers %d }" % ids[0], "    ref { dummyAtom (0,0,0) }", "    axis (0,0,1)", "  }"]
+    elif kind == "distance":
+        L += ["  distance {", "    group1 { atomNumbers %d %d }" % (ids[0], ids[1]), "    group2 { atomNumbers %d }" % ids[2], "  }"]
+    else:
+        n = 3 if kind == "angle" else 4
+        L += ["  %s {" % kind] + ["    group%d { atomNumbers %d }" % (i + 1, ids[i]) for i in range(n)] + ["  }"]
+    L.append("}")
+    return {"name": name, "kind": kind, "scalar": True, "opts": opts, "conf": "\n".join(L) + "\n"}
+
+
+def gen_nameref_sequence(r, k, dangling_steps=True):
+    """A variable (the holder) that refers to ANOTHER variable by NAME (corrFuncWithColvar; the only reference by name that
+    colvars resolves while running: colvar::calc_acf): partner and holder defined, steps, the partner deleted (steps with the
+    dangling reference: each must report that the variable is not defined), the partner defined AGAIN under the same name
+    (another object), steps; sometimes a second holder, a bias on the partner, the holder deleted at the end"""
+    ev = []
+    def steps(n):
+        for _ in range(n):
+            ev.append({"op": "step", "pos": [(a, V.dyadic(r, -3, 3, 4), V.dyadic(r, -3, 3, 4), V.dyadic(r, -3, 3, 4)) for a in range(1, NATOMS + 1)]})
+    ctype = r.choice(["coordinate", "velocity", "coordinate_p2"]) if False else r.choice(["coordinate", "velocity"])
+    ev.append({"op": "addcv", "cv": simple_cv(r, "v0")})
+    if r.random() < 0.5:
+        ev.append({"op": "addcv", "cv": simple_cv(r, "v2")})
+    ev.append({"op": "addcv", "cv": simple_cv(r, "v1", corr="v0", ctype=ctype)})
+    second = r.random() < 0.4
+    if second:
+        ev.append({"op": "addcv", "cv": simple_cv(r, "v3", corr="v0", ctype=r.choice(["coordinate", "velocity"]))})
+    biases = []
+    if r.random() < 0.5:
+        b = {"name": "b0", "kind": "harmonic", "cvs": ["v0"], "conf": "harmonic {\n  name b0\n  colvars v0\n  centers 0.5\n  forceConstant 2.0\n}\n"}
+        ev.append({"op": "addbias", "bias": b}); biases.append("b0")
+    steps(r.randint(1, 5))
+    for rep in range(r.randint(1, 2)):
+        ev.append({"op": "delcv", "name": "v0", "also": list(biases)}); biases = []
+        if dangling_steps and r.random() < 0.7:
+            steps(r.randint(1, 2))
+        ev.append({"op": "addcv", "cv": simple_cv(r, "v0")})
+        steps(r.randint(1, 4))
+    if r.random() < 0.4:
+        ev.append({"op": "delcv", "name": "v1", "also": []})
+        steps(1)
+    if second and r.random() < 0.5:
+        ev.append({"op": "delcv", "name": "v0", "also": []})
+        steps(1)
+    steps(1)
+    return {"id": "nr%d" % k, "samestep": 1 if r.random() < 0.8 else 0, "events": ev, "includecv": 1, "nameref": True}
+
+
+def sanitizer_report(e):
+    m = re.search(r"ERROR: (AddressSanitizer|LeakSanitizer): ([^\n]*)", e) or re.search(r"(runtime error): ([^\n]*)", e)
+    if not m:
+        return None
+    kind = "undefined-behaviour" if m.group(1) == "runtime error" else ("leak" if m.group(1) == "LeakSanitizer" else m.group(2).split()[0])
+    frames = [l.strip() for l in e.split("\n") if re.match(r"\s*#\d+ ", l) and "colvar" in l][:6]
+    return kind, "%s: %s; %s" % (m.group(1), m.group(2)[:200], " | ".join(frames)[:700])
+
+
+def nameref_asan(run, seqs):
+    """QUICK and thorough tier: the name-reference family and witness W_C under AddressSanitizer (a reference to a deleted
+    variable that is kept and USED is visible only there: the freed object still looks alive to the plain build)"""
+    try:
+        unit = V.build_prog("c13unit", UNIT_SRC, variant="asan")
+    except V.InfraError as e:
+        run.notes.append("asan variant could not be built: %s" % str(e)[-300:])
+        return
+    d = V.scratch("C13n")
+    env = dict(os.environ, ASAN_OPTIONS="detect_leaks=1:exitcode=99", UBSAN_OPTIONS="print_stacktrace=1")
+    items = [("W_C", W_C), ("W_C2", W_C2)] + [(str(q["id"]), scenario(q, dumps=False)) for q in seqs]
+    for name, sc in items:
+        open(os.path.join(d, "n.scn"), "w").write(sc)
+        rc, o, e = V.sh([unit, "n.scn"], cwd=d, timeout=600, env=env)
+        run.count("nameref-asan:" + name, True)
+        run.dist("nameref:asan-histories")
+        rep = sanitizer_report(e)
+        if rep:
+            run.violation("asan:" + rep[0], "a variable refers to another one by name (corrFuncWithColvar), the partner is deleted / defined again, steps: %s" % rep[1],
+                          {"kind": "scenario", "scenario": sc, "variant": "asan"})
+        elif "echo END" not in o:
+            run.violation("asan:crash", "the engine simulator (sanitizer build) died (rc=%d) in a history with a reference by name to a deleted variable: %s" % (rc, e[-300:]),
+                          {"kind": "scenario", "scenario": sc, "variant": "asan"})
 
 
 # ------------------------------------------------------------------ exhaustive enumeration (thorough tier)
@@ -365,34 +465,35 @@ def scenario(seq, dumps=True, tail=None):
 
 
 def survivors_only(seq):
-    """the same history with every event that concerns an object deleted later (or a failed definition) removed"""
+    """the same history with every event that concerns an object deleted later removed; objects are told apart by the
+    event that defined them (a name may be defined again after its object was deleted)"""
     ev = seq["events"]
-    # find last reset: everything before it concerns deleted objects (steps kept)
-    dead_cv, dead_b = set(), set()
-    live_cv, live_b = {}, {}
+    dead = set()                      # indices of the defining events of objects deleted later
+    live_cv, live_b = {}, {}          # name -> index of the defining event
+    owner = {}                        # index of a `set` event -> defining event of the object it concerns
     for i, e in enumerate(ev):
         if e["op"] == "addcv":
             live_cv[e["cv"]["name"]] = i
         elif e["op"] == "addbias":
             live_b[e["bias"]["name"]] = i
         elif e["op"] == "delbias":
-            dead_b.add(e["name"]); live_b.pop(e["name"], None)
+            dead.add(live_b.pop(e["name"], None))
         elif e["op"] == "delcv":
-            dead_cv.add(e["name"]); live_cv.pop(e["name"], None)
+            dead.add(live_cv.pop(e["name"], None))
             for b in e["also"]:
-                dead_b.add(b); live_b.pop(b, None)
+                dead.add(live_b.pop(b, None))
         elif e["op"] == "reset":
-            dead_cv |= set(live_cv); dead_b |= set(live_b)
+            dead |= set(live_cv.values()) | set(live_b.values())
             live_cv, live_b = {}, {}
+        elif e["op"] == "set":
+            owner[i] = (live_cv if e["kind"] == "colvar" else live_b).get(e["name"])
     out = []
-    for e in ev:
-        if e["op"] == "addcv" and e["cv"]["name"] in dead_cv:
-            continue
-        if e["op"] == "addbias" and e["bias"]["name"] in dead_b:
+    for i, e in enumerate(ev):
+        if e["op"] in ("addcv", "addbias") and i in dead:
             continue
         if e["op"] in ("delbias", "delcv", "reset"):
             continue
-        if e["op"] == "set" and (e["name"] in dead_cv or e["name"] in dead_b):
+        if e["op"] == "set" and (owner.get(i) is None or owner[i] in dead):
             continue
         out.append(e)
     return {"id": seq["id"], "samestep": seq["samestep"], "events": out, "includecv": seq.get("includecv", 1)}, sorted(live_cv), sorted(live_b)
@@ -621,6 +722,7 @@ F1 = "double-release-on-delete-of-inactive-bias"
 F2 = "variable-deactivated-when-last-bias-deleted"
 F3 = "disable-with-one-dependent"
 F4 = "failed-enable-leaks-ref-counts"
+F9 = "uncounted-request-outlives-its-holder"
 
 XZ = """colvar {
   name x
@@ -694,11 +796,41 @@ W_H_REF = ("natoms 2\ntemperature 300.0\nnew\nconfig EOF\n" + XG + ABF_H % "a2" 
            "pos 1 0 0 1.25\nstep\npos 1 0 0 1.5\nstep\necho END\n")
 
 
+# F9: the ONLY holder of an uncounted request is deleted: the request stays (known finding)
+WALL_H = "harmonicWalls {\n  name w\n  colvars x\n  lowerWalls 0.0\n  upperWalls 0.5\n  forceConstant 2.0\n}\n"
+W_F9 = ("natoms 2\ntemperature 300.0\nnew\nshow atomf 1 energy 1 bias 1 cv 1\nconfig EOF\n" + XG + WALL_H + ABF_H % "a1" + "EOF\npos 1 0 0 1.0\nstep\n"
+        "script cv bias a1 delete\ndumpdeps\npos 1 0 0 1.25\nstep\npos 1 0 0 1.5\nstep\necho END\n")
+W_F9_REF = ("natoms 2\ntemperature 300.0\nnew\nshow atomf 1 energy 1 bias 1 cv 1\nconfig EOF\n" + XG + WALL_H + "EOF\npos 1 0 0 1.0\nstep\n"
+            "dumpdeps\npos 1 0 0 1.25\nstep\npos 1 0 0 1.5\nstep\necho END\n")
+
+
 # N: default names.  Two unnamed harmonic restraints (harmonic1, harmonic2), the older one deleted, a third defined: it must not
 # take the name of the survivor; then the survivor is deleted BY NAME: exactly the third one must remain
 HARM_U = "harmonic {\n  colvars x\n  centers %s\n  forceConstant 2.0\n}\n"
 W_N = ("natoms 2\nnew\nconfig EOF\n" + XZ + HARM_U % "0.0" + HARM_U % "1.0" + "EOF\npos 1 0 0 1.0\nstep\nscript cv bias harmonic1 delete\n"
        "config EOF\n" + HARM_U % "2.0" + "EOF\ndumpdeps\nscript cv bias harmonic2 delete\ndumpdeps\npos 1 0 0 1.5\nstep\necho END\n")
+
+
+# C: a reference by NAME to another variable is resolved when it is used (colvar::calc_acf): x correlates with y; y deleted: every
+# step reports that y is not defined (no silent use of the destroyed object); y defined again (another object): steps succeed
+def _wc_pos(k):
+    return "".join("pos %d %s %s %s\n" % (a, 0.5 * a + 0.1 * k, 0.3 * a, 0.2 * a * (k + 1)) for a in range(1, 5))
+YC = "colvar {\n  name y\n  distance {\n    group1 { atomNumbers %d }\n    group2 { atomNumbers %d }\n  }\n}\n"
+XC = ("colvar {\n  name x\n  corrFunc on\n  corrFuncWithColvar y\n  corrFuncType coordinate\n  corrFuncLength 4\n  distance {\n"
+      "    group1 { atomNumbers 1 }\n    group2 { atomNumbers 2 }\n  }\n}\n")
+W_C = ("natoms 4\nnew\nconfig EOF\n" + YC % (3, 4) + XC + "EOF\n" + _wc_pos(0) + "step\n" + _wc_pos(1) + "step\necho PHASE deleted\nscript cv colvar y delete\n" +
+       _wc_pos(2) + "step\n" + _wc_pos(3) + "step\necho PHASE redefined\nconfig EOF\n" + YC % (2, 3) + "EOF\n" + _wc_pos(4) + "step\n" + _wc_pos(5) + "step\necho END\n")
+
+
+# C2: the partner deleted and defined AGAIN with the same definition: the correlation function written at the end must be the one of
+# the run in which y was never touched (the name resolves to the new object, which computes the same values)
+def _wc2_pos(k):
+    return "".join("pos %d %s %s %s\n" % (a, 0.5 * a + 0.1 * k * ((a % 3) + 1), 0.3 * a, 0.2 * a * (k + 1)) for a in range(1, 5))
+def _wc2(prefix, redefine):
+    return ("natoms 4\nprefix %s\nnew\nconfig EOF\n" % prefix + YC % (3, 4) + XC.replace("corrFuncLength 4", "corrFuncLength 2") + "EOF\n" +
+            "".join(_wc2_pos(k) + "step\n" for k in range(3)) + ("script cv colvar y delete\nconfig EOF\n" + YC % (3, 4) + "EOF\n" if redefine else "") +
+            "".join(_wc2_pos(k) + "step\n" for k in range(3, 8)) + "postrun\necho END\n")
+W_C2, W_C2_REF = _wc2("wc2", True), _wc2("wc2r", False)
 
 
 def run_scn(unit, d, text, name="w.scn"):
@@ -786,6 +918,48 @@ def replay_witnesses(run, unit, d, tabs, model):
             run.violation("uncounted-request-given-back:observables", "two abf biases with hideJacobian on x, one deleted: the last step differs from the run in which "
                           "it never existed: %s instead of %s" % ([l for l in A if l not in B][:4], [l for l in B if l not in A][:4]),
                           {"kind": "identity", "scenario": W_H, "reference": W_H_REF})
+    # F9: the only holder of an uncounted request deleted
+    rc, o, e = run_scn(unit, d, W_F9)
+    rc2, o2, e2 = run_scn(unit, d, W_F9_REF)
+    A, B = last_step_block(o), last_step_block(o2)
+    run.count("witness:F9", True)
+    if A is not None and B is not None and not obs_equal(A, B):
+        run.violation(F9, "x = distance with a grid, harmonicWalls w on x, abf a1 on x with hideJacobian on, one step, `cv bias a1 delete`, two steps: "
+                      "hide_Jacobian_force stays enabled in x (a top-level enable by a1 that nothing counts) and the Jacobian force is still subtracted "
+                      "from the walls' force: %s instead of %s" % ([l for l in A if l.startswith("ATOMF")], [l for l in B if l.startswith("ATOMF")]),
+                      {"kind": "identity", "scenario": W_F9, "reference": W_F9_REF})
+    # C: reference by name to a deleted / re-defined variable
+    rc, o, e = run_scn(unit, d, W_C)
+    run.count("witness:C", True)
+    if "echo END" not in o or "echo PHASE redefined" not in o:
+        run.violation("witness:C:crash", "the witness of references by name does not run (rc=%d): %s" % (rc, (o[-200:] + e[-200:])), {"kind": "scenario", "scenario": W_C})
+    else:
+        p0, rest = o.split("echo PHASE deleted")
+        p1, p2 = rest.split("echo PHASE redefined")
+        st = [re.findall(r"(?m)^STEP \d+ err=(\w+)", x) for x in (p0, p1, p2)]
+        run.dist("witness:C:" + "/".join(",".join(x) for x in st))
+        if st[1] != ["input", "input"]:
+            run.violation("dangling-name-reference", "x correlates with y (corrFuncWithColvar y); after `cv colvar y delete` the two steps report %s instead of the "
+                          "error `collective variable \"y\" is not defined at this time`: the destroyed object is still used" % st[1], {"kind": "scenario", "scenario": W_C})
+        if st[0] != ["ok", "ok"] or st[2] != ["ok", "ok"]:
+            run.violation("name-reference-not-resolved", "x correlates with y: steps while y exists report %s, steps after y was deleted and defined again report %s "
+                          "(all four must succeed: the name is looked up at every use)" % (st[0], st[2]), {"kind": "scenario", "scenario": W_C})
+    rc, o, e = run_scn(unit, d, W_C2)
+    rc2, o2, e2 = run_scn(unit, d, W_C2_REF)
+    run.count("witness:C2", True)
+    fa, fb = os.path.join(d, "wc2.x.corrfunc.dat"), os.path.join(d, "wc2r.x.corrfunc.dat")
+    if "POSTRUN err=ok" not in o or "POSTRUN err=ok" not in o2 or "err=input" in o or not os.path.exists(fa) or not os.path.exists(fb):
+        run.violation("witness:C2:crash", "the witness of a partner variable deleted and defined again does not run or writes no correlation function (rc=%d): %s" % (
+            rc, " ".join(l for l in o.split("\n") if "err=" in l)[-300:]), {"kind": "identity", "scenario": W_C2, "reference": W_C2_REF})
+    else:
+        A, B = open(fa).read(), open(fb).read()
+        run.dist("witness:C2:samples:" + (re.search(r"samples = (\d+)", A) or re.search("()", "")).group(1))
+        if A != B:
+            run.violation("name-reference-identity", "x correlates with y; y deleted and defined again with the same definition after 3 steps, 5 more steps: the "
+                          "correlation function of x differs from the run in which y was never deleted: %s instead of %s" % (
+                              [l for l in A.split("\n") if l and not l.startswith("#")], [l for l in B.split("\n") if l and not l.startswith("#")]),
+                          {"kind": "identity", "scenario": W_C2, "reference": W_C2_REF})
+        os.remove(fa); os.remove(fb)
     # N: default names of unnamed biases stay distinct; deletion by name hits the right object
     rc, o, e = run_scn(unit, d, W_N)
     dumps = D.parse_deps_blocks(o.split("\n"))
@@ -918,6 +1092,9 @@ def check(run):
     seqs = [gen_sequence(r, k, r.randint(6, 40 if k % 3 else 14)) for k in range(nseq)]
     enum_seqs = [] if quick else list(enum_sequences(4))
     seqs += enum_seqs
+    rn = V.rng("C13-nameref")
+    nr_seqs = [gen_nameref_sequence(rn, k) for k in range(8 if quick else 120)]
+    seqs += nr_seqs
     enum_out = {}
     mlines, mexpect = [], []
     nprim = ndel = 0
@@ -939,9 +1116,45 @@ def check(run):
         prev = {"objs": [], "atoms": {}}
         prev_bad = set()
         tainted = False
+        corr_tsf = {}
+        rops, live_cv, corr, ndef = [], {}, {}, 0     # name references: model operations, live variable name -> number of its definition, holder -> partner name
         tsfs = {}                      # timeStepFactor of the live objects, by dump description (default names are reused after a reset)
         nops, live_b = [], {}          # naming model: operations, and the unnamed biases believed alive (name -> (kind index, rank))
         for i, (ev, blk) in enumerate(zip(seq["events"], blocks)):
+            part = {"id": seq["id"], "samestep": seq["samestep"], "events": seq["events"][:i + 1]}
+            if ev["op"] == "addcv" and not seq.get("enum"):
+                cname = ev["cv"]["name"]
+                rops.append("D %s" % cname[1:])
+                if "CONFIG err=ok" in blk:
+                    live_cv[cname] = ndef                    # the objects are numbered by their definition
+                    if ev["cv"]["opts"].get("corr"):
+                        corr[cname] = ev["cv"]["opts"]["corr"]
+                        corr_tsf[cname] = 2 if "timeStepFactor 2" in ev["cv"]["conf"] else 1
+                elif cname not in live_cv:
+                    rops.append("X %s" % cname[1:])          # the failed variable is destroyed
+                ndef += 1
+            elif ev["op"] == "delcv" and "SCRIPT err=ok" in blk and not seq.get("enum"):
+                rops.append("X %s" % ev["name"][1:]); live_cv.pop(ev["name"], None); corr.pop(ev["name"], None)
+            elif ev["op"] == "reset":
+                rops.append("R"); live_cv = {}; corr = {}
+            elif ev["op"] == "step":
+                # a reference by name is resolved when it is used: with a deleted partner the step reports the documented error
+                # (never a silent success on a stale object); the extracted model says what the name resolves to
+                st_ok = re.search(r"(?m)^STEP \d+ err=ok", blk) is not None
+                stn = re.search(r"(?m)^STEP (\d+) err=", blk)
+                dd = D.parse_deps_blocks(blk.split("\n"))
+                for holder, partner in sorted(corr.items()):
+                    # the reference is used (colvar::analyze -> calc_acf) only at the steps at which the holder is awake (timeStepFactor)
+                    if stn is None or int(stn.group(1)) % corr_tsf.get(holder, 1) != 0:
+                        run.dist("name-reference:holder-asleep")
+                        continue
+                    # ... and active (finding F2: deleting its last bias switches a variable off)
+                    ho = [o for o in (dd[-1]["objs"] if dd else []) if o["cls"] == 1 and o["desc"] == "colvar_" + holder]
+                    if not (ho and ho[0]["fs"] and ho[0]["fs"][0][1]):
+                        run.dist("name-reference:holder-inactive")
+                        continue
+                    mlines.append("RESOLVE " + " ".join(rops) + " Q " + partner[1:])
+                    mexpect.append(("resolve", live_cv.get(partner), st_ok, part, holder, partner))
             if ev["op"] in ("addcv", "addbias"):
                 tsfs.update(tsf_map({"events": [ev]}))
             elif ev["op"] == "reset":
@@ -1054,6 +1267,20 @@ def check(run):
     if len(mout) != len(mlines):
         run.mismatch("primitive:model-run", {"n": len(mlines)}, "%d cases" % len(mlines), "%d answers (rc=%d) %s" % (len(mout), rc, e[-300:]))
     for ml, mo, ex in zip(mlines, mout, mexpect):
+        if ex[0] == "resolve":
+            _, py_live, st_ok, part, holder, partner = ex
+            run.count(ml, True)
+            resolved = mo.strip() != "-"
+            redefined = ml.count(" D %s " % partner[1:]) + ml.count(" D %s Q" % partner[1:]) > 1
+            run.dist("model:name-reference:" + ("resolved" if resolved else "unresolved") + (":name-defined-again" if redefined else ""))
+            if mo.strip() != ("-" if py_live is None else str(py_live)):
+                # the model's answer (number of the defining operation, or nothing) against the definitions/deletions the implementation accepted
+                run.mismatch("name-reference", {"scenario": scenario(part), "model_case": ml}, "object of definition %s" % py_live, mo[:40])
+            elif not resolved and st_ok:
+                run.violation("dangling-name-reference", "variable %s correlates with variable %s (corrFuncWithColvar), which has been deleted: the step "
+                              "reports success instead of `collective variable \"%s\" is not defined at this time` -- a stale reference to the deleted "
+                              "object was used" % (holder, partner, partner), {"kind": "scenario", "scenario": scenario(part)})
+            continue
         if ex[0] == "names":
             run.count(ml, True)
             run.dist("model:default-names")
@@ -1128,6 +1355,8 @@ def check(run):
         # the compared step comes after every deletion
         seq["events"].append({"op": "step", "pos": [(a, V.dyadic(r2, -3, 3, 4), V.dyadic(r2, -3, 3, 4), V.dyadic(r2, -3, 3, 4)) for a in range(1, NATOMS + 1)]})
         id_items.append((seq, None))
+    # references by name: the partner deleted and defined again (no step while it is missing: such a step is an error)
+    id_items += [(gen_nameref_sequence(r2, 1000 + k, dangling_steps=False), None) for k in range(4 if quick else 60)]
     # every enumerated history that deletes something (its run with dumps was made above)
     id_items += [(es, enum_out[es["id"]]) for es in enum_seqs
                  if es["id"] in enum_out and any(e["op"] in ("delbias", "delcv", "reset") for e in es["events"])]
@@ -1172,6 +1401,7 @@ def check(run):
         # exploratory, off by default: its first differences are not triaged yet (stale values of sleeping variables that a fresh
         # session has never computed; one LOAD err=input) -- see NOTES.md, residue
         cross_session_stream(run, unit, 8 if quick else 150)
+    nameref_asan(run, nr_seqs[:8] if quick else nr_seqs)
     if not quick:
         asan_stream(run, 300)
     run.cov["correspondence"].update({"histories": len(seqs), "primitive_cases": nprim, "module_event_cases": ndel, "identity_histories": len(id_items), "enumerated_histories": len(enum_seqs)})
@@ -1298,7 +1528,17 @@ def compare_identity(run, seq, ref, s1, s2, o1, o2, tabs, f1_hit, f2_hit=()):
             live_atoms(s1), live_atoms(s2)), rp)
     # variables that are active in the reference but not after the history
     deact = [a["desc"] for a, b in zip(s1["objs"], s2["objs"]) if a["cls"] == 1 and b["cls"] == 1 and a["fs"] and b["fs"] and b["fs"][0][1] and not a["fs"][0][1]]
+    # non-dynamic features of the surviving objects that are on after the history and off in the reference: requested by a deleted
+    # object through a top-level, uncounted enable (abf hideJacobian -> hide_Jacobian_force of the variable, ...); no deletion gives
+    # them back (C13_deletions_keep_uncounted_requests), so they outlive their only holder (finding F9)
+    left = []
+    for a, b in zip(s1["objs"], s2["objs"]):
+        tab = tabs.get(a["cls"], [])
+        if a["cls"] == b["cls"] and len(a["fs"]) == len(b["fs"]) == len(tab):
+            left += ["%s:%s" % (a["desc"], tab[f]["D"]) for f, (x, y) in enumerate(zip(a["fs"], b["fs"])) if tab[f]["type"] != 1 and tab[f]["D"] != "awake" and x[1] and not y[1]]
     run.dist("identity:deps-state-equal" if deps_key(s1) == deps_key(s2) else "identity:deps-state-differs")
+    if left:
+        run.dist("identity:request-outlives-holder")
     A, B = last_step_block(o1), last_step_block(o2)
     if A is not None and B is not None and not obs_equal(A, B):
         diffA = [l for l in A if l not in B][:4]
@@ -1307,10 +1547,13 @@ def compare_identity(run, seq, ref, s1, s2, o1, o2, tabs, f1_hit, f2_hit=()):
             sig = F2          # the dumps show a surviving variable switched off by a deletion
         elif f1_hit:
             sig = F1
+        elif left:
+            sig = F9
         else:
             sig = "identity:observables"
         run.violation(sig, "values/energies/forces at the last step differ from the run in which the deleted objects never existed: %s instead of %s%s" % (
             diffA, diffB, (" (inactive after the history: %s)" % deact) if deact else
+            (" (still enabled although the object that requested it is gone: %s)" % left) if left and sig == F9 else
             ((" (deactivated by the deletion of its last bias during the history: %s)" % sorted(set(f2_hit))) if f2_hit else "")), rp)
 
 
